@@ -108,3 +108,48 @@ func TestReaderSectionsAreNotOrdered(t *testing.T) {
 		t.Fatal("a read-lock section and a write-lock section are ordered by the lock")
 	}
 }
+
+// writer preference: a goroutine that read-locks twice deadlocks when a writer calls Lock in between (as with the
+// real sync.RWMutex); without the nested RLock there is no deadlock.
+type rr struct {
+	mu     RWMutex
+	nested bool
+}
+
+func (w *rr) Key() string                       { return "" }
+func (w *rr) CheckState() []string              { return nil }
+func (w *rr) Pending() bool                     { return false }
+func (w *rr) CheckTerminal() ([]string, string) { return nil, "done" }
+
+type rrH struct{ nested bool }
+
+func (h rrH) Start(s *Sched) World {
+	w := &rr{nested: h.nested}
+	s.Spawn("reader", func() {
+		w.mu.RLock()
+		if w.nested {
+			w.mu.RLock()
+			w.mu.RUnlock()
+		}
+		w.mu.RUnlock()
+	})
+	s.Spawn("writer", func() { w.mu.Lock(); w.mu.Unlock() })
+	return w
+}
+
+func TestRecursiveReadLockDeadlocksUnderWriterPreference(t *testing.T) {
+	dead := func(nested bool) bool {
+		for _, v := range Explore(rrH{nested}, Options{}).Violations {
+			if v.Kind == "deadlock" {
+				return true
+			}
+		}
+		return false
+	}
+	if !dead(true) {
+		t.Fatal("nested RLock with a writer arriving in between must be found to deadlock")
+	}
+	if dead(false) {
+		t.Fatal("plain reader / writer must not deadlock")
+	}
+}
